@@ -40,6 +40,7 @@ def _is_param_field(v, argi, name):
 
 def opener_rules(facts, rep, rule="C01-OPENERS"):
     ok = True
+    ok &= builder_rules(facts, rep, rule=rule)
     openers = [f for f in facts.fns if re.search(ZW, f.path) and f.vis == "Public" and _opt_arg(f) is not None]
     names = {f.path for f in openers}
     if len(openers) < 4:
@@ -127,6 +128,35 @@ def _entry_table(argname_opts="options"):
         "system": (lambda v: v[0] == "agg" and v[1] == "adt:Unix", "System::Unix"),
         "file_comment": (lambda v: (v[0] == "call" and re.search(r"String::new$|Default::default$", v[1]) is not None) or (v[0] == "const" and v[2] in ("", None)), "String::new()"),
     }
+
+
+def builder_rules(facts, rep, rule="C01-OPENERS"):
+    """the option builders are what E9 models them as: each stores its argument in the field it names and hands the options back
+    (`large_file(true)` that stores nothing makes every entry above 4 GiB fail; a level or timestamp that is dropped is never applied)"""
+    ok = True
+    table = {"compression_method": "compression_method", "compression_level": "compression_level", "last_modified_time": "last_modified_time",
+             "large_file": "large_file", "unix_permissions": "permissions"}
+    for nm, fld in table.items():
+        gs = facts.find(r"^write::FileOptions::%s$" % nm)
+        if not gs:
+            ok &= rep.check(False, rule, "builder:%s" % nm, "", "", "FileOptions::%s no longer exists" % nm)
+            continue
+        g = gs[0]
+        ex = Ex(g)
+        asg = [(bi, si, s_) for bi, si, s_ in g.stmts() if s_["k"] == "assign" and s_["place"]["p"] and [q.get("n") for q in s_["place"]["p"] if q["k"] == "field"] == [fld]]
+        good = len(asg) == 1 and not any(t_ and t_["k"] == "switch" for t_ in (g.term(b_) for b_ in range(len(g.blocks)) if not g.blocks[b_]["cleanup"]))
+        if good:
+            v = norm(ex.rvalue(asg[0][2]["rv"], (asg[0][0], asg[0][1])))
+            if nm == "unix_permissions":
+                good = v[0] == "agg" and v[1] == "adt:Some" and v[3][0][1][0] == "bin" and v[3][0][1][1] == "BitAnd" and \
+                    {x_[0] for x_ in (v[3][0][1][2], v[3][0][1][3])} == {"arg", "const"} and any(x_[0] == "const" and x_[2] == 0o777 for x_ in (v[3][0][1][2], v[3][0][1][3]))
+            else:
+                good = v[0] == "arg" and v[1] == 2
+        from engine.query import ret_alts as _ra
+        good = good and all(a_[0] == "arg" and a_[1] == 1 for a_ in _ra(g))
+        ok &= rep.check(good, rule, "builder:%s" % nm, where(g, g.span), "%s(v): self.%s = %s; self" % (nm, fld, "Some(v & 0o777)" if nm == "unix_permissions" else "v"),
+                        "FileOptions::%s does not store its argument in `%s` (unconditionally) and return the options: the option is silently not applied" % (nm, fld))
+    return ok
 
 
 def entry_fields_rules(facts, rep, rule="C01-ENTRYFIELDS"):
